@@ -23,6 +23,11 @@ Static clauses decided (necessary conditions of C16): the ordering skeleton of a
          that slot is vacated (set to None).  Reusing the old slot would emit its DELETE before the DELETE/UPDATE of the rows
          that still reference it.
 """
+# "flush raises an error and the session's writes are not committed": that the writes made before the error are inside a transaction that is then
+# rolled back is exactly what the C17 clauses establish (transaction opened before the first write, flag set only after BEGIN succeeded, no reconnect in
+# the middle of a transaction) -- they are necessary conditions of C16's second sentence as well
+INCLUDES = ('C17',)
+
 NOT_DECIDED = "that the resulting statement order satisfies every foreign-key graph; deferred constraints; ordering between unrelated objects"
 
 CORE = 'pony.orm.core'
